@@ -71,7 +71,9 @@ impl<U: Subscription, H: Subscription> Subscription for ZipSubscription<H, U> {
   }
 
   fn is_closed(&self) -> bool {
-    self.b.is_closed()
+    // the pair is closed only when nothing can be delivered through either
+    // half any more.
+    self.a.is_closed() && self.b.is_closed()
   }
 }
 
